@@ -170,7 +170,7 @@ func benignParts(t *rapid.T) []string {
 	if rapid.Bool().Draw(t, "tl") {
 		p = append(p, rapid.SampledFrom([]string{"segtimeline_1", "segtimelinenr_1"}).Draw(t, "tltype"))
 	}
-	for _, cand := range []string{"tsbd_300", "snr_3", "start_100", "ato_1.5", "timesubsstpp_en,sv", "timesubswvtt_en", "scte35_2", "periods_60", "continuous_1", "eccp_cenc", "patch_60", "mup_2", "utc_ntp-sntp", "ltgt_2000", "chunkdur_0.5", "traffic_u5d5,d3u3", "statuscode_[{cycle:30,rsq:0,code:404}]", "timesubsdur_500", "stop_900"} {
+	for _, cand := range []string{"tsbd_300", "snr_3", "start_100", "ato_1.5", "timesubsstpp_en,sv", "timesubswvtt_en", "scte35_2", "periods_60", "continuous_1", "eccp_cenc", "patch_60", "mup_2", "utc_ntp-sntp", "ltgt_2000", "chunkdur_0.5", "traffic_u5d5,d3u3", "statuscode_[{cycle:30,rsq:0,code:404}]", "timesubsdur_500", "stop_900", "startrel_-20", "stoprel_20"} {
 		if rapid.IntRange(0, 9).Draw(t, "b") == 0 {
 			p = append(p, cand)
 		}
@@ -309,6 +309,12 @@ func genLivesim(t *rapid.T) Req {
 	url := "/livesim2/" + strings.Join(parts, "/")
 	if len(parts) > 0 {
 		url += "/"
+	}
+	// now and then an option-like part stands after the asset name (it is then part of the content path, not an option)
+	if rapid.IntRange(0, 11).Draw(t, "option-after-asset") == 0 {
+		stray := rapid.SampledFrom([]string{"stoprel_5", "startrel_-20", "stop_900", "periods_60", "patch_60", "ato_1", "chunkdur_0.5", "scte35_1", "timesubsstpp_en", "eccp_cenc", "traffic_u5d5", "statuscode_[{cycle:30,rsq:0,code:404}]"}).Draw(t, "stray")
+		file = stray + "/" + file
+		expect = ""
 	}
 	url += asset + "/" + file + q
 	method := rapid.SampledFrom([]string{"GET", "GET", "GET", "GET", "HEAD", "POST", "OPTIONS", "PUT", "DELETE"}).Draw(t, "method")
